@@ -745,7 +745,7 @@ pub fn replay(path: &str) -> i32 {
                 1
             }
         }
-        Some(k @ ("c06" | "c06-digest" | "c15" | "c16" | "c18" | "c19" | "c20" | "c20-solve" | "c20-async" | "c20-inflight" | "c20-guarded")) => {
+        Some(k @ ("c06" | "c06-digest" | "c15" | "c16" | "c18" | "c19" | "c20" | "c20-solve" | "c20-async" | "c20-inflight" | "c20-guarded" | "c11-cache-union")) => {
             let f = |r: &Value| match k {
                 "c06" | "c06-digest" => crate::e6::replay(r),
                 "c15" => crate::e15::replay(r),
@@ -991,6 +991,9 @@ pub fn run_e2(ctx: &Ctx) -> i32 {
                 "C10" | "C11" => {
                     for (pi, plan) in plans.iter().enumerate() {
                         e2::check_c10_c11(prop_s, case, plan, (fi, idx, pi as u32), acc);
+                    }
+                    if prop_s == "C11" && !case.u.unions.is_empty() {
+                        crate::e4::check_c11_cache_union(case, (fi, idx, 99), acc);
                     }
                 }
                 "C12" => {
